@@ -78,6 +78,7 @@ def modify_lines(kind, val):
     """(text lines, regex of dump lines allowed to change, regex that must be present afterwards)"""
     g = f"{val:.6g}"
     if kind == "solution":
+        g = f"{20.0 + val % 20.0:.6g}"
         return [f" -temp {g}"], r"^-temp\s", rf"^-temp\s+{g}$"
     if kind == "pp":
         return [" -component Calcite", f"  -moles {g}"], r"^-moles\s", rf"^-moles\s+{g}$"
@@ -203,6 +204,13 @@ class Shadow:
             if abs(i) < 1000:
                 self.ex[k].add(i)
 
+    def remove(self, k, toks):
+        if not toks:
+            self.ex[k].clear()
+        for t in toks:
+            lo, hi = (t[0], t[0]) if len(t) == 1 else (min(t), max(t))
+            self.ex[k] -= set(range(lo, hi + 1)) if hi - lo < 1000 else set()
+
     def pick(self, rng, k, default):
         s = [x for x in self.ex[k] if x >= 0]
         return rng.choice(sorted(s)) if s and rng.random() < 0.85 else default
@@ -287,7 +295,17 @@ def gen_block(rng, sh, ids, n_templates, weights):
         return {"op": "save", "kind": k, "n": n, "m": m}
     if o == "copy":
         k = rng.choice(KINDS + ["cell", "cell"])
-        src = sh.pick(rng, rng.choice(KINDS) if k == "cell" else k, num(rng))
+        if k == "cell" and rng.random() < 0.7:
+            # a cell number under which as many kinds as possible are filed
+            cnt = {}
+            for kk in KINDS:
+                for x in sh.ex[kk]:
+                    if x >= 0:
+                        cnt[x] = cnt.get(x, 0) + 1
+            best = sorted(cnt, key=lambda x: (-cnt[x], x))[:3]
+            src = rng.choice(best) if best else num(rng)
+        else:
+            src = sh.pick(rng, rng.choice(KINDS) if k == "cell" else k, num(rng))
         for _ in range(20):
             a, b = rng_range(rng, p_range=0.5)
             if rng.random() < 0.05:
@@ -310,20 +328,55 @@ def gen_block(rng, sh, ids, n_templates, weights):
                 lines.append(["cell", [del_tok(rng) for _ in range(rng.randint(0 if rng.random() < 0.1 else 1, 2))]])
             else:
                 lines.append(["item", rng.choice(KINDS), [del_tok(rng) for _ in range(rng.randint(0 if rng.random() < 0.12 else 1, 3))]])
+        for l in lines:
+            if l[0] == "all" or (l[0] == "cell" and not l[1]):
+                for kk in KINDS:
+                    sh.ex[kk].clear()
+            elif l[0] == "cell":
+                for kk in KINDS:
+                    sh.remove(kk, l[1])
+            else:
+                sh.remove(l[1], l[2])
         return {"op": "del", "lines": lines}
     if o == "cells":
         return {"op": "cells", "toks": [[sh.pick(rng, "solution", num(rng))] if rng.random() < 0.7 else del_tok(rng)
                                           for _ in range(rng.randint(1, 2))]}
     if o == "emix":
         k = rng.choice(EMIX_KINDS)
+        if k == "solution" and not [x for x in sh.ex[k] if x >= 0]:
+            k = rng.choice(EMIX_KINDS[1:])       # an empty solution (mixed from nothing) only breeds degenerate chemistry
         n, m = rng_range(rng, neg=False, p_range=0.3)
-        cs = sorted({sh.pick(rng, k, num(rng, False)) for _ in range(rng.randint(1, 2))})
+        if k == "solution":
+            have = sorted(x for x in sh.ex[k] if x >= 0)
+            cs = sorted({rng.choice(have) for _ in range(rng.randint(1, 2))})
+        else:
+            cs = sorted({sh.pick(rng, k, num(rng, False)) for _ in range(rng.randint(1, 2))})
         sh.add(k, n, m)
         return {"op": "emix", "kind": k, "n": n, "m": m, "comps": [(c, rng.choice([0.5, 1.0])) for c in cs]}
     raise ValueError(o)
 
 
 WEIGHTS = {"def": 36, "raw": 6, "mod": 8, "use": 9, "save": 10, "copy": 13, "del": 10, "cells": 5, "emix": 3}
+
+
+def gen_save_scenario(rng, sh, ids):
+    """a call that is sure to end in a batch reaction whose result is saved over a number range"""
+    k = rng.choice(["pp", "exchange", "surface", "gas", "ss"])
+    a, b = rng.randint(0, 5), rng.randint(0, 5)
+    sim1 = [{"op": "def", "kind": "solution", "n": a, "m": None, "id": next(ids), "item": rng.randint(0, 11)},
+            {"op": "def", "kind": k, "n": b, "m": None if rng.random() < 0.7 else b + rng.randint(1, 2), "id": next(ids),
+             "item": rng.randint(0, 11)}]
+    n, m = rng_range(rng, neg=False, p_range=0.85)
+    sim2 = [{"op": "use", "kind": "solution", "n": a}, {"op": "use", "kind": k, "n": b},
+            {"op": "save", "kind": k, "n": n, "m": m}]
+    sh.add("solution", a)
+    sh.add(k, b, sim1[1]["m"])
+    sh.add(k, n, m)
+    if rng.random() < 0.5:
+        n2, m2 = rng_range(rng, neg=False, p_range=0.7)
+        sim2.append({"op": "save", "kind": "solution", "n": n2, "m": m2})
+        sh.add("solution", n2, m2)
+    return [sim1, sim2]
 
 
 def gen_history(rng, max_ops, weights=None):
@@ -334,6 +387,11 @@ def gen_history(rng, max_ops, weights=None):
     hist, nops = [], 0
     target = rng.randint(max(2, max_ops // 3), max_ops)
     while nops < target:
+        if rng.random() < 0.15:
+            run = gen_save_scenario(rng, sh, ids)
+            nops += sum(len(x) for x in run)
+            hist.append(run)
+            continue
         run = []
         for _ in range(rng.choice([1, 1, 2, 3])):
             sim = [gen_block(rng, sh, ids, 12, w) for _ in range(rng.choice([1, 1, 2, 2, 3, 4]))]
